@@ -1211,3 +1211,42 @@ def explore(run_path, max_paths=400, timeout_ms=30000, label=""):
             Ctx.current = None
         queue.extend(c.new_prefixes)
     return results
+
+
+# ------------------------------------------------------------------ opaque functions of whole arrays
+
+_OPAQUE = {}
+
+
+def array_text(arr):
+    """Canonical text of an array's contents: its shape and its element expression at a bound index."""
+    from .arr import SymArr
+
+    if arr is None:
+        return "None"
+    if not isinstance(arr, SymArr):
+        return repr(arr)
+    c = ctx()
+    idx = [SymNum(z3.Int("i%d!" % k), "int") for k in range(arr.ndim)]
+    c.native_divmod = getattr(c, "native_divmod", 0) + 1
+    c.in_spec += 1
+    try:
+        v = arr.at(*idx)
+    finally:
+        c.in_spec -= 1
+        c.native_divmod -= 1
+    shape = ",".join(str(z3.simplify(to_z3(n))) if is_sym(n) else str(n) for n in arr.shape)
+    body = z3.simplify(to_z3(_numeric(v), "real")).sexpr() if not isinstance(v, (bool,)) else str(v)
+    return "[%s]%s" % (shape, body)
+
+
+def opaque_of_arrays(name, *arrays):
+    """An uninterpreted real determined by the CONTENTS of whole arrays: one constant per distinct
+    canonical text, so two applications are the same term exactly when their arguments are written the same."""
+    import hashlib
+
+    sig = name + "|" + "|".join(array_text(a) for a in arrays)
+    key = "%s_%s" % (name, hashlib.sha1(sig.encode()).hexdigest()[:12])
+    if key not in _OPAQUE:
+        _OPAQUE[key] = z3.Real(key)
+    return SymNum(_OPAQUE[key], "real")
